@@ -34,7 +34,10 @@ Record env := {
   e_wits : list acct ;      (* registered Ethereum witnesses, store iteration order *)
   e_cap : Z ;               (* ETHCDOption.TotalSupply *)
   e_supply : acct ;         (* ETHCDOption.TotalSupplyAddr: its wrapped balance is the supply counter *)
-  e_tx : txid -> txinfo     (* the external chain / go-ethereum decoding, as an oracle *)
+  e_tx : txid -> txinfo ;   (* the external chain / go-ethereum decoding, as an oracle *)
+  e_key : acct -> bool ;    (* the address is the address of a signing key: a transaction naming it as
+                               signer can pass action.ValidateBasic (signatures are C04's subject) *)
+  e_len20 : acct -> bool    (* keys.Address.Err() = nil: the address is 20 bytes long *)
 }.
 
 (* ProcessType and TrackerState constants (data/ethereum/init.go) *)
@@ -155,18 +158,23 @@ Definition do_lock (E : env) (s : state) (a : acct) (x : txid) : state * out :=
   end.
 
 (* runERC20Lock (action/eth/ext_ERC20Lock.go), store effect only: the token checks and the cap are
-   folded into the oracle [x_erc_ok]; there is NO existence check on any of the three stores and
-   the failed store is not cleaned; the tracker is written over whatever is in the ongoing store.
-   Not part of [op]/[step]: the ERC-20 mint/burn side (a second currency) is not modelled, see
-   props/C15.v (7b) and the known finding C15.erc20_lock_no_existence_check. *)
+   folded into the oracle [x_erc_ok]; since /repo 81bf4e3 the handler has runLock's existence rule
+   (refused when the name is ongoing or passed; a failed tracker of that name is deleted) — before,
+   it had no existence check at all (former finding C15.erc20_lock_no_existence_check).
+   Not part of [op]/[step]: the ERC-20 mint/burn side (a second currency) is not modelled. *)
 Definition do_lock_erc (E : env) (x_erc_ok : txid -> bool) (s : state) (a : acct) (x : txid) : state * out :=
   if negb (x_erc_ok x) then (s, Fail)
   else
     let n := x_name (e_tx E x) in
-    (upd_ongoing s (<[n := new_tracker T_LOCKERC a x n (e_wits E)]> (ongoing s)), Ok).
+    if has (ongoing s) n || has (passed s) n then (s, Fail)
+    else
+      ({| ongoing := <[n := new_tracker T_LOCKERC a x n (e_wits E)]> (ongoing s);
+          passed := passed s;
+          failed := delete n (failed s);
+          bal := bal s; log := log s |}, Ok).
 
-(* C15.erc20_lock_no_existence_check: an ERC-20 lock whose name is already in one of the stores *)
-Definition trig_erc_relock (E : env) (s : state) (x : txid) : bool :=
+(* the input class of the former finding: an ERC-20 lock whose name is already in one of the stores *)
+Definition erc_relock (E : env) (s : state) (x : txid) : bool :=
   let n := x_name (e_tx E x) in has (ongoing s) n || has (passed s) n || has (failed s) n.
 
 (* runRedeem *)
@@ -320,8 +328,24 @@ Definition step (E : env) (s : state) (o : op) : state * out :=
   | EndBlock nl names => end_block nl s names
   end.
 
+(* The kind's Validate function, which DeliverTx calls before the handler since /repo d276709 (and
+   CheckTx always did): signatures of the named signer (abstracted by [e_key]), and the static field
+   checks — report: VoteIndex >= 0; SEND: amount >= 0 and both addresses 20 bytes long.  The fee
+   checks (currency, minimal price) concern OLT and are outside this model. *)
+Definition valid (E : env) (o : op) : bool :=
+  match o with
+  | Lock a _ | Redeem a _ => e_key E a
+  | Report _ _ v idx _ => e_key E v && (0 <=? idx)
+  | Transfer f t z => e_key E f && (0 <=? z) && e_len20 E f && e_len20 E t
+  | EndBlock _ _ => true
+  end.
+
+(* one delivered transaction / one block end: a transaction that does not validate has no effect *)
+Definition vstep (E : env) (s : state) (o : op) : state * out :=
+  if valid E o then step E s o else (s, Fail).
+
 Definition run (E : env) (s : state) (ops : list op) : state :=
-  fold_left (fun s o => (step E s o).1) ops s.
+  fold_left (fun s o => (vstep E s o).1) ops s.
 
 (* sum of all wrapped balances, the supply address included *)
 Definition tot (b : gmap acct Z) : Z := map_fold (fun _ v acc => v + acc) 0 b.
@@ -361,8 +385,12 @@ Definition trig_supply (E : env) (s : state) (o : op) : bool :=
 Fixpoint supply_guarded (E : env) (s : state) (ops : list op) : Prop :=
   match ops with
   | [] => True
-  | o :: r => trig_supply E s o = false /\ supply_guarded E (step E s o).1 r
+  | o :: r => trig_supply E s o = false /\ supply_guarded E (vstep E s o).1 r
   end.
+
+(* no tracker is owned by the supply address *)
+Definition owners_not_supply (E : env) (s : state) : Prop :=
+  forall n t, ongoing s !! n = Some t -> t_owner t <> e_supply E.
 
 Definition minted_names (l : list event) : list name :=
   omap (fun e => match e with Minted n _ _ => Some n | _ => None end) l.
